@@ -30,6 +30,10 @@ func zzH_STRc() {
 	// message pushed must have been delivered; otherwise (the end follows the last push at once) only
 	// freedom from hanging is asserted
 	strict := true
+	twoReaders := vParam("str.readers", 1) == 2 && vChoose("two-readers", 2) == 1
+	var r2err error
+	r2done := false
+	startR2 := make(chan struct{}, 1)
 	vGo("opener", func() {
 		var err error
 		st, err = conn.NewStream("S.Watch")
@@ -38,6 +42,16 @@ func zzH_STRc() {
 			return
 		}
 		opened = true
+		if twoReaders {
+			// a second goroutine blocked in ReadMessage on the same stream (it starts reading once
+			// the pushed messages have been consumed by the first reader)
+			vGo("reader2", func() {
+				<-startR2
+				var msg []byte
+				r2err = st.ReadMessage(nil, &msg)
+				r2done = true
+			})
+		}
 		for i := 0; i < N+2; i++ {
 			var msg []byte
 			e := st.ReadMessage(nil, &msg)
@@ -46,6 +60,12 @@ func zzH_STRc() {
 				break
 			}
 			got = append(got, msg)
+			if len(got) == N {
+				startR2 <- struct{}{} // the pushed messages are consumed: the second reader may block now
+			}
+		}
+		if len(got) < N {
+			startR2 <- struct{}{}
 		}
 		// after shutdown every later operation fails with ErrStreamShutdown
 		var msg []byte
@@ -60,6 +80,21 @@ func zzH_STRc() {
 	var open pbRequest
 	open.Unmarshal(f)
 	vAssert(len(open.Upgrade) == 1 && open.Upgrade[0] == zzUpgOpenStream, "open-request-flags")
+	if vChoose("cut-before-ack", 2) == 1 {
+		// the connection ends between the open request and its acknowledgement: NewStream must
+		// return an error instead of hanging
+		if vChoose("cut-kind", 2) == 0 {
+			m.fail(io.EOF)
+		} else {
+			conn.Close()
+		}
+		vAtEnd(func() {
+			vAssert(vBlocked() == 0, "reader-unblocked")
+			vAssert(openErr != nil && !opened, "open-fails-when-connection-ends-first")
+			vReach("end")
+		})
+		return
+	}
 	m.deliver(zzResponse(open.Seq, "", nil)) // acknowledgement
 	if vChoose("wait-after-ack", 2) == 1 {
 		vQuiesce()
@@ -135,6 +170,9 @@ func zzH_STRc() {
 	}
 	vAtEnd(func() {
 		vAssert(vBlocked() == 0, "reader-unblocked")
+		if twoReaders && opened {
+			vAssert(r2done && r2err == ErrStreamShutdown, "blocked-read-returns-shutdown")
+		}
 		if !strict {
 			vReach("end")
 			return
